@@ -519,7 +519,7 @@ package trace
 //@ ghost var bspSent int
 //@ ghost var bspDropped int
 //@ func (bsp *batchSpanProcessor) enqueueDrop(ctx context.Context, sd ReadOnlySpan) (ok bool)
-//@   prop C01
+//@   prop C01 C09
 //@   unchecked frame channel send, atomic counter
 //@   requires bsp != nil && sd != nil
 //@   ghost@entry : bspSent = 0
@@ -531,7 +531,7 @@ package trace
 //@   assert@return#* : (sd.SpanContext().IsSampled() ==> bspSent + bspDropped == 1) && (!sd.SpanContext().IsSampled() ==> bspSent + bspDropped == 0) && ($ret0 == (bspSent == 1))
 
 //@ func (bsp *batchSpanProcessor) enqueueBlockOnQueueFull(ctx context.Context, sd ReadOnlySpan) (ok bool)
-//@   prop C01
+//@   prop C01 C09
 //@   unchecked frame,no-panic channel send; ctx comes from context.TODO()
 //@   requires bsp != nil && sd != nil
 //@   ghost@entry : bspSent = 0
